@@ -709,3 +709,37 @@ M("c08-only-first-stand-in-used", "C08", "cola/libcola/colafd.cpp",
 M("c08-neutral-replacement-blocks-merged", "C08", "cola/libcola/cluster.cpp",
   "                    lcaChildJCluster->m_nodes_replaced_with_clusters.insert(i);\n                }\n\n                if (lcaChildKCluster && lcaChildJCluster)\n                {",
   "                    lcaChildJCluster->m_nodes_replaced_with_clusters.insert(i);", expect="silent")
+
+# ---------------------------------------------------------------- C17 round d
+M("c17-edgeless-fast-path-diagonal", "C17", "cola/libcola/colafd.cpp",
+  "    computePathLengths(es,m_edge_lengths);\n}",
+  "    if (es.empty())\n    {\n        for(unsigned i=0;i<n;i++) {\n            for(unsigned j=0;j<n;j++) { D[i][j]=DBL_MAX; G[i][j]=0; }\n        }\n        minD = 1;\n        return;\n    }\n    computePathLengths(es,m_edge_lengths);\n}",
+  mention=["MATRIX-WRITERS"])
+M("c17-distance-diagonal-overwritten", "C17", "cola/libcola/colafd.cpp",
+  "                G[i][j]=0;\n                continue;", "                G[i][j]=0;\n                D[i][j]=minD;\n                continue;", mention=["IDEAL-DISTANCES", "itself"])
+M("c17-neutral-new-reader-of-G", "C17", "cola/libcola/colafd.cpp",
+  "    if (minD == DBL_MAX) minD = 1;\n", "    if (minD == DBL_MAX) minD = 1;\n    if (n > 1 && G[0][1] == 7) { minD = 1; }\n", expect="silent")
+
+# ---------------------------------------------------------------- C09 round d
+M("c09-fixed-rectangles-not-copied-back", "C09", "cola/libvpsc/rectangle.cpp",
+  "            COLA_ASSERT(ISNOTNAN((*v)->finalPosition));\n            (*r)->moveCentreY((*v)->finalPosition);",
+  "            COLA_ASSERT(ISNOTNAN((*v)->finalPosition));\n            if(fixed.count((*v)->id)) continue;\n            (*r)->moveCentreY((*v)->finalPosition);",
+  mention=["RESULT-COPYBACK"])
+M("c09-third-pass-not-published", "C09", "cola/libvpsc/rectangle.cpp",
+  "            vpsc_x2.solve();\n            r=rs.begin();\n            for(v=vs.begin();v!=vs.end();++v,++r) {",
+  "            vpsc_x2.solve();\n            r=rs.begin();\n            for(v=vs.begin();thirdPass==false&&v!=vs.end();++v,++r) {", mention=["RESULT-COPYBACK"])
+M("c09-overlap-is-intersection-length", "C09", "cola/libvpsc/rectangle.h",
+  "        if (ux <= vx && r->getMinX() < getMaxX())\n            return getMaxX() - r->getMinX();",
+  "        if (ux <= vx && r->getMinX() < getMaxX())\n            return std::min(getMaxX(), r->getMaxX()) - r->getMinX();",
+  mention=["OVERLAP-AMOUNT"], tu=["cola/libvpsc/rectangle.cpp"])
+M("c09-catch-all-does-not-restore", "C09", "cola/libvpsc/rectangle.cpp",
+  "        // gives up (e.g., vpsc::UnsatisfiedConstraint).\n        Rectangle::setXBorder(xBorder);\n        Rectangle::setYBorder(yBorder);\n        throw;",
+  "        // gives up (e.g., vpsc::UnsatisfiedConstraint).\n        Rectangle::setXBorder(xBorder);\n        throw;", mention=["PAIRED-BORDERS", "handler"])
+M("c09-no-catch-all", "C09", "cola/libvpsc/rectangle.cpp",
+  "    } catch (...) {\n        // Don't leave the process-wide borders changed when the solver\n        // gives up (e.g., vpsc::UnsatisfiedConstraint).\n        Rectangle::setXBorder(xBorder);\n        Rectangle::setYBorder(yBorder);\n        throw;\n    }",
+  "    }", mention=["PAIRED-BORDERS", "catch-all"])
+MUTANTS.append({"id": "c09-neutral-overlap-rewritten", "prop": "C09", "expect": "silent", "mention": [], "tu": ["cola/libvpsc/rectangle.cpp"], "edits": [
+    {"file": "cola/libvpsc/rectangle.h", "old": "        if (ux <= vx && r->getMinX() < getMaxX())\n            return getMaxX() - r->getMinX();",
+     "new": "        if (ux <= vx && getMaxX() > r->getMinX())\n            return -(r->getMinX() - getMaxX());", "count": 1},
+    {"file": "cola/libvpsc/rectangle.h", "old": "        if (uy <= vy && r->getMinY() < getMaxY()) {\n            return getMaxY() - r->getMinY();",
+     "new": "        if (uy <= vy && getMaxY() > r->getMinY()) {\n            return -(r->getMinY() - getMaxY());", "count": 1}]})
